@@ -326,6 +326,12 @@ fn date_to_days_since_epoch(year: i32, month: u32, day: u32) -> i32 {
     days
 }
 
+/// Verification hook (H2): exposes the private calendar helper unchanged.
+#[cfg(kahflane_turdb_verif)]
+pub fn verif_date_to_days_since_epoch(year: i32, month: u32, day: u32) -> i32 {
+    date_to_days_since_epoch(year, month, day)
+}
+
 pub struct LiteralParser;
 
 impl LiteralParser {
